@@ -111,6 +111,28 @@ func (c *checkCtx) schedBin(build string) (string, []string) {
 // tryPlan runs one plan document in a fresh process and reports whether the
 // violation with the given key shows up.
 func (c *checkCtx) tryPlan(p *plan.SchedPlan, key string) (bool, string) {
+	return c.tryPlanN(p, key, 3)
+}
+
+// tryPlanN: on the race build a run is repeated up to n times. The execution
+// is identical every time, but the monitor is not: under -race sync.Pool.Put
+// drops one item in four at random, so the incidental happens-before edges that
+// fmt's and regexp's pools create between callers (and that can order the two
+// racing accesses) differ from run to run. A report is a proof of the race; a
+// silent run is not a refutation.
+func (c *checkCtx) tryPlanN(p *plan.SchedPlan, key string, n int) (bool, string) {
+	if p.Build != "race" {
+		n = 1
+	}
+	var ok bool
+	var info string
+	for i := 0; i < n && !ok; i++ {
+		ok, info = c.tryPlanOnce(p, key)
+	}
+	return ok, info
+}
+
+func (c *checkCtx) tryPlanOnce(p *plan.SchedPlan, key string) (bool, string) {
 	q := p.Clone()
 	q.Expect = key
 	tmp := filepath.Join(c.S.Dir, fmt.Sprintf("cand-%d.json", time.Now().UnixNano()))
@@ -260,7 +282,7 @@ func (c *checkCtx) reportSched(v Violation, extraDetail string) {
 		c.infraf("bad plan in violation: %v", err)
 		return
 	}
-	ok, info := c.tryPlan(&p, v.Key)
+	ok, info := c.tryPlanN(&p, v.Key, 10)
 	if !ok {
 		c.infraf("violation %s (plan %d) did not reproduce in a fresh process; not reported: %s", v.Key, p.Index, tail(info, 1200))
 		return
